@@ -25,6 +25,26 @@ theorem filterMap_congr_mem {α β} (l : List α) (f g : α → Option β) (h : 
     simp only [List.filterMap_cons, h x (by simp)]
     rw [ih (fun a ha => h a (by simp [ha]))]
 
+/-- with no claims every line number is nobody's -/
+theorem map_initialAuthor_nil (k : Nat) (l : List Nat) :
+    (enumFrom k l).map (fun p => initialAuthor [] p.1) = l.map (fun _ => (none : Author)) := by
+  induction l generalizing k with
+  | nil => rfl
+  | cons x xs ih =>
+    simp only [enumFrom, List.map_cons, ih (k + 1)]
+    simp [initialAuthor]
+
+/-- an INITIAL without claims credits nobody, whatever content was recorded with it -/
+theorem checkpointAttr_no_claims (S W : List Nat) :
+    checkpointAttr ⟨S, (enum1 S).map (fun p => initialAuthor [] p.1)⟩ W none = W.map (fun _ => (none : Author)) := by
+  unfold checkpointAttr enum1
+  simp only
+  rw [map_initialAuthor_nil]
+  apply List.map_congr_left
+  intro y _
+  rw [lookup_map]
+  by_cases h : y ∈ S <;> simp [h]
+
 /-! ### ghost provenance (specification state; never read by the model) -/
 
 structure Spec where
